@@ -47,11 +47,12 @@ def infra(msg):
 # ---------------------------------------------------------------- build steps
 
 def extract_consts():
+    """returns None if fine, else a description of what could not be translated"""
     p = os.path.join(ROOT, "tools", "extract_consts.py")
-    if os.path.exists(p):
-        r = sh([sys.executable, p])
-        if r.returncode != 0:
-            infra("extract_consts failed: " + r.stdout + r.stderr)
+    r = sh([sys.executable, p])
+    if r.returncode != 0:
+        return "constant translator failed: " + (r.stdout + r.stderr).strip()
+    return None
 
 
 def lake_build(targets):
@@ -206,8 +207,11 @@ def check(pid, tier, seed, replay=None):
     notes = []
 
     # 1. proofs
-    extract_consts()
-    modules = spec["modules"]
+    cerr = extract_consts()
+    if cerr:
+        broken.append(("proof", cerr, cerr + "\n(the constant is no longer where the translator expects it: the obligations of "
+                       "Vibrato/ConstsCheck.lean cannot be re-checked against the current source)"))
+    modules = spec["modules"] + ["Vibrato.ConstsCheck"]
     ok, out = lake_build(modules + ["vmodel"])
     theorems = spec["theorems"]
     discharged = 0
@@ -367,7 +371,9 @@ def check(pid, tier, seed, replay=None):
 
 
 def setup():
-    extract_consts()
+    cerr = extract_consts()
+    if cerr:
+        infra(cerr)
     ok, out = lake_build([])
     if not ok:
         print(out[-6000:])
